@@ -1,7 +1,7 @@
 from outsourcer import Code
 
 from . import utils
-from .base import Expression
+from .base import Expression, python_names
 from .constants import BREAK, POS, RESULT, STATUS
 
 
@@ -27,6 +27,14 @@ class List(Expression):
             op = f'{{{self.min_len or 0},{self.max_len}}}'
 
         return f'{arg}{op}'
+
+    def mentioned_names(self):
+        # The bounds may be names (or Python expressions).
+        result = set()
+        for bound in (self.min_len, self.max_len):
+            if isinstance(bound, str):
+                result.update(python_names(bound))
+        return result
 
     def always_succeeds(self):
         return not self.min_len or self.min_len == '0'
